@@ -79,6 +79,18 @@ def check (inp out : List String) : Verdict :=
       { agree := agree, model := joinSp mout, specFail := (failing cl).eraseDups }
     | _, _ => .bad "ev tokens"
   | "hs" :: _ => SessDrv.check "C14" inp out
+  | "e2e" :: _ :: "0late" :: _ =>
+    -- the daemon's socket appeared only after glonax-input was started: giving up without a session is fine; a session that
+    -- IS registered is a failsafe session (the bytes after the handshake depend on when it connected: not compared)
+    match out with
+    | ["NOCONN"] => { agree := true, model := "NOCONN", specFail := [] }
+    | flags :: _ =>
+      match flags.toNat? with
+      | some flags =>
+        let ok := flags / 16 % 2 == 1
+        { agree := ok, model := "NOCONN | 16 …", specFail := failing [("failsafe_registered_by_default", ok)] }
+      | none => .bad "e2e late flags"
+    | _ => .bad "e2e late tokens"
   | "e2e" :: mode :: fm :: raws =>
     match parseMode? mode, raws.mapM hexBytes?, out with
     | some mode, some raws, [flags, bytes] =>
